@@ -5,6 +5,7 @@ import TrustVerif.Model.C03
 import TrustVerif.Drv.Common
 import TrustVerif.Drv.StParse
 import TrustVerif.Model.StExtCheck
+import TrustVerif.Model.StArray
 import TrustVerif.Drv.StExtParse
 
 /-
@@ -28,6 +29,11 @@ are evaluated on what the implementation did (pass 2):
   obs <outcome> frames=<n> <slot>=<Tag>:<v> …   -> m seen     (the observation is in the op line)
   obst <outcome> frames=<n> <slot>=<Tag>:<v> …  -> m seen     (judged by C03 only: histories in
                                             which the environment writes ill-typed process-image values)
+  aoff <n> <lo1> <hi1> … <lon> <hin> <s1> … <sn>   -> m ok <offset> | m IndexOutOfBounds:<idx>:<lo>:<hi>
+                                            `array_offset` (Model/StArray.lean, proved to be row-major
+                                            addressing): the position of element [s1,…,sn] in the
+                                            array value, observed by writing a marker through the
+                                            subscripts and looking where it landed
   oexp <outcome|*> <slot>=<Tag>:<v> …       what the generator of the stream expects of the NEXT
                                             observation (outcome and the listed slots), computed by
                                             the generator's own straight-line evaluation of the
@@ -72,6 +78,8 @@ structure Case where
   odecls : List (String × String) := []
   obs : List (Bool × String × Option String) := []   -- (judged by C01 too, observation, expectation)
   oexp : Option String := none
+  /-- `aoff` operations: the model's answer and (pass 2) the implementation's -/
+  aoffs : List (String × Option String) := []
   /-- operations in file order (reversed while reading), for pass 1: true = check, false = cycle -/
   ops : List Bool := []
   lastOp : Option Bool := none
@@ -139,6 +147,20 @@ def readLine (c : Case) (line : String) : Case :=
       | some b => { c with xbody := some b }
       | none => { c with bad := true }
   | ["odecl", slot, tag] => { c with odecls := (slot, tag) :: c.odecls }
+  | "aoff" :: nd :: rest =>
+    let ans : String :=
+      match nd.toNat?, rest.mapM String.toInt? with
+      | some n, some xs =>
+        if xs.length ≠ 3 * n then "bad-op" else
+        let bounds := xs.take (2 * n)
+        let subs := xs.drop (2 * n)
+        let dims : List (Int × Int) := (List.range n).map fun j => (bounds.getD (2 * j) 0, bounds.getD (2 * j + 1) 0)
+        match StArray.arrayOffset dims subs with
+        | .ok off => s!"ok {off}"
+        | .error (.outOfBounds i lo hi) => s!"IndexOutOfBounds:{i}:{lo}:{hi}"
+        | .error .typeMismatch => "TypeMismatch"
+      | _, _ => "bad-op"
+    { c with aoffs := (ans, none) :: c.aoffs, lastOp := none }
   | "oexp" :: rest => { c with oexp := some (joinWith " " rest) }
   | "obs" :: rest => { c with obs := (true, joinWith " " rest, c.oexp) :: c.obs, oexp := none, lastOp := none }
   | "obst" :: rest => { c with obs := (false, joinWith " " rest, c.oexp) :: c.obs, oexp := none, lastOp := none }
@@ -157,7 +179,10 @@ def readLine (c : Case) (line : String) : Case :=
       match c.steps with
       | s :: ss => { c with steps := { s with impl := some (joinWith " " rest) } :: ss, lastOp := none }
       | [] => { c with bad := true }
-    | none => if c.obs.isEmpty then { c with bad := true } else c
+    | none =>
+      match c.aoffs with
+      | (m, none) :: more => { c with aoffs := (m, some (joinWith " " rest)) :: more }
+      | _ => if c.obs.isEmpty then { c with bad := true } else c
   | _ => { c with bad := true }
 
 def applySets (rs : RunState) (sets : List (String × Val)) : RunState :=
@@ -188,6 +213,7 @@ def emitModel (accepted : Bool) (ops : List Bool) (outs : List (CycleOut × Env 
     | [] => "bad-op" :: emitModel accepted rest []
 
 def modelPass (c : Case) : List String :=
+  if !c.aoffs.isEmpty then c.aoffs.reverse.map (fun a => if a.1 = "bad-op" then "bad-op" else "m " ++ a.1) else
   if !c.obs.isEmpty then (if c.bad then c.obs.map fun _ => "bad-op" else c.obs.map fun _ => "m seen") else
   match c.xprogram with
   | some xp =>
@@ -441,6 +467,11 @@ def oraclePassObs (c : Case) : String :=
   s!"{head} c01={dress (firstNotOk (rs.map (·.1)))} c02={if c02 = "na" then c02 else dress c02} c03={dress (firstNotOk (rs.map (·.2.2)))}"
 
 def oraclePass (c : Case) : String :=
+  if !c.aoffs.isEmpty then
+    -- the Lean function is proved to be the row-major reference: a difference is a C02 failure
+    let bad := c.aoffs.any fun (m, i) => i != some m
+    s!"o {c.n} acc=1 strict=0 spec=0 c01=ok c02={if bad then "unmodelled:array-offset" else "ok"} c03=ok"
+  else
   if !c.obs.isEmpty then oraclePassObs c else
   match c.xprogram with
   | some xp => oraclePassX c xp
